@@ -94,7 +94,7 @@ func (t Type) str(g *lookup) string {
 		return "map[" + k.str(g) + "]" + v.str(g)
 	case TypeStruct:
 		v := t.value()
-		if v > 0 {
+		if v > 0 && int(v) < len(g.indexToKey) {
 			return g.Key(int(v))
 		}
 		return "struct"
